@@ -512,4 +512,16 @@ def globals : Spec → List Op → List Target
 
 end Spec
 
+/-- The operation does not assign `\globaldefs`. -/
+def Op.noGlobaldefs : Op → Bool
+  | .assign _ v _ => decide (v ≠ globaldefsVar)
+  | _ => true
+
+/-- The operation is written without `\global`, is not `\gdef`, and does not assign `\globaldefs`. -/
+def Op.plain : Op → Bool
+  | .assign pre v _ => decide (pre = 0) && decide (v ≠ globaldefsVar)
+  | .define pre _ d => decide (pre = 0) && (match d with | .gmac _ => false | _ => true)
+  | .selectFont pre _ => decide (pre = 0)
+  | _ => true
+
 end C01
